@@ -27,7 +27,7 @@ func genC17Hub(t *rapid.T) Scenario {
 
 func judgeC17Hub(sc Scenario) (key, msg string, nontrivial bool) {
 	r := Execute(sc)
-	defer r.F.Close()
+	defer r.Close()
 	if r.Herr != "" {
 		return "harness", r.Herr, false
 	}
